@@ -341,11 +341,21 @@ def run_c04(tier, seed):
     for _ in range(n):
         vals = [c04_value(rng) for _ in range(rng.randint(1, 5))]
         cases.append(dict(vals=vals, default=rng.choice(HRES_POOL[:-1]), desc=None))
+    # a client that stops reading while a large reply is on its way, and reads again later: the socket buffers take `cap` more bytes,
+    # the write of the reply waits (or, if the server works with write deadlines, fails after a partial transfer); afterwards the
+    # connection goes on.  Whatever the server does about the slow client, the bytes the client finally reads must be whole frames.
+    big = bytes((i * 13 + 5) % 251 for i in range(3000))
+    for cap in (0, 1, 5, 6, 7, 100, 2999, 3005, 3008):
+        for later in ([("PING", []), ("ECHO", [b"x"])], [("GET", [b"k"])], [("QUIT", [])]):
+            vals = [G.request_bytes("GET", [b"k"])] + [G.request_bytes(n_, a_) for n_, a_ in later]
+            cases.append(dict(vals=vals, default="mb(%s)" % L.hx(big),
+                              steps=[(0, "s%d" % cap), (0, "f" + L.hx(vals[0])), (0, "u"), (0, "f" + L.hx(b"".join(vals[1:]))), (0, "e")],
+                              desc="client stops reading (%d bytes of buffer left) during the 3009-byte reply to GET k, reads again, then sends %s" % (cap, " ; ".join(n_ for n_, _ in later))))
     for c in cases:
         data = b"".join(c["vals"])
         noerr = any(m.encode() in data.upper() for m in MAPCMDS)
         dflt = c["default"] if not (noerr and c["default"][0] not in "mn") else "ms(4f4b)"
-        c["line"] = L.mkcase([(0, "f" + L.hx(data)), (0, "e")], tbl=rand_table(rng, noerr=noerr) if c["desc"] is None else None, default=dflt)
+        c["line"] = L.mkcase(c.get("steps") or [(0, "f" + L.hx(data)), (0, "e")], tbl=rand_table(rng, noerr=noerr) if c["desc"] is None else None, default=dflt)
         c["desc"] = c["desc"] or repr(data[:200])
     good = run_cases(chk, cases)
     validated, distinct, kinds = 0, set(), {}
@@ -364,7 +374,8 @@ def run_c04(tier, seed):
                           dict(case=c["line"], desc=c["desc"], impl=c["iobs"].raw[:2000]))
             continue
         for w in ws:
-            kinds[chr(w[1][0])] = kinds.get(chr(w[1][0]), 0) + 1
+            if w[1]:
+                kinds[chr(w[1][0])] = kinds.get(chr(w[1][0]), 0) + 1
         if not corr(chk, c):
             continue
         validated += 1
